@@ -230,6 +230,65 @@ def shard_history(col, shard_i, nhist):
                 break
 
 
+# ---- grammar features outside the IR around the @name rule: rule parameters / node types, based rules, semantics classes of TatSu
+PROBE_RULES = {
+    'plain': "@name\nident = /[A-Za-z]+/ ;",
+    'typed': "@name\nident::Ident = /[A-Za-z]+/ ;",
+    'typed-params': "@name\nident(Ident) = /[A-Za-z]+/ ;",
+    'typed-override': "@name\nident::Ident = @:/[A-Za-z]+/ ;",
+    'based-on-plain': "word = @:/[A-Za-z]+/ ;\n@name\nident < word = () ;",
+    'name-nomemo': "@name\n@nomemo\nident = /[A-Za-z]+/ ;",
+    'isname-typed': "@isname\nident::Ident = /[A-Za-z]+/ ;",
+}
+
+
+def shard_probes(col, shard_i):
+    import tatsu
+    from tatsu.semantics import ModelBuilderSemantics
+
+    class Default:
+        def _default(self, ast, *a, **k):
+            return ast
+
+    class Method:
+        def ident(self, ast, *a, **k):
+            return ast
+
+    sems = {'none': lambda: None, 'builder': lambda: ModelBuilderSemantics(), 'default': lambda: Default(), 'method': lambda: Method()}
+    kws = ['if', 'End']
+    for pname, rule in PROBE_RULES.items():
+        for igc in (None, True):
+            g = '@@keyword :: ' + ' '.join(kws) + '\n' + ('@@ignorecase :: True\n' if igc else '') + "start = 'let' ident ';' $ ;\n" + rule + '\n'
+            try:
+                m = tatsu.compile(g)
+                ns: dict = {}
+                exec(tatsu.to_python_sourcecode(g, name='K'), ns)
+                cls = ns['KParser']
+            except Exception as e:  # noqa
+                col.count('probe.grammar-rejected.' + pname)
+                continue
+            for sname, mk in sems.items():
+                for word in ('x', 'iff', 'if', 'End', 'IF', 'end', 'ends'):
+                    reserved = (word.upper() in {k.upper() for k in kws}) if igc else (word in kws)
+                    want = 'fail' if reserved else 'ok'
+                    got = []
+                    for run in (lambda: m.parse(f'let {word};', semantics=mk()), lambda: cls().parse(f'let {word};', semantics=mk())):
+                        try:
+                            run()
+                            got.append('ok')
+                        except tatsu.exceptions.FailedParse:
+                            got.append('fail')
+                        except Exception as e:  # noqa
+                            got.append('exc:' + type(e).__name__)
+                    col.case(['kw-probe', pname, igc, sname, word], nontrivial=True)
+                    col.count('probe.compared')
+                    if got != [want, want]:
+                        col.violation(f'oracle:keyword-probe:{pname}:{sname}:ignorecase={igc}:want={want}:model={got[0]}:generated={got[1]}',
+                                      f'a @name rule written as {pname!r} with semantics {sname!r}: the word {word!r} must be ' + ('rejected' if reserved else 'accepted'),
+                                      {'oracle': 'never a keyword (constructs outside the IR)', 'grammar': g, 'text': f'let {word};', 'semantics': sname,
+                                       'expected': want, 'model.parse': got[0], 'generated': got[1]})
+
+
 def main():
     chk = Check(PID)
     chk.rule = ('grammars with 1-3 @@keyword declarations (words, quoted strings, mixed case) and a @name rule used in a choice, a closure, a '
@@ -245,9 +304,11 @@ def main():
         if chk.quick:
             vlib.run_sharded(chk, shard, 14, extra=(10, 8))
             vlib.run_sharded(chk, shard_history, 14, extra=(8,))
+            vlib.run_sharded(chk, shard_probes, 1, procs=1)
         else:
             vlib.run_sharded(chk, shard, 28, extra=(60, 14))
             vlib.run_sharded(chk, shard_history, 28, extra=(60,))
+            vlib.run_sharded(chk, shard_probes, 1, procs=1)
         chk.obligation('E1: grammars with keywords, implementation vs model', 'correspondence',
                        not any(v['signature'].startswith('E1kw') for v in chk.violations))
         chk.obligation('never a keyword / generated parser / undecorated grammar (implementation only)', 'oracle',
